@@ -199,12 +199,30 @@ def verify_inner_rules(fb, ctx):
     ctx.check(mirq.has_leaf(lp, "arg1.authority.signature") and any(l.startswith("arg1.blocks") and l.endswith(".signature") for l in lp), "ARGS", "verify_inner: previous signature is the previous block's signature", "ARGS|verify_inner|prev",
               f"previous-signature argument depends on {sorted(l for l in lp if not l.startswith('call:'))}; expected {{self.authority.signature, self.blocks[*].signature}}", f"{b['file']}:{c.ln}")
     # the loop variable is advanced from the verified block after the call
-    adv = []
+    # (the key / signature of the block being verified: reads of another block's fields, e.g. of the predecessor handed out by
+    #  `once(&self.authority).chain(self.blocks.iter()).zip(self.blocks.iter())`, are not an advance - ARGS above decides them)
+    from reach import def_index
+    dfs = def_index(b)
+    def root(l_):
+        for _ in range(12):
+            ds = dfs.get(l_, [])
+            if len(ds) != 1 or ds[0][0] != "assign":
+                return l_
+            rv = ds[0][1]
+            src = rv["op"]["pl"] if rv.get("k") == "use" and rv["op"].get("k") in ("copy", "move") else (rv["pl"] if rv.get("k") == "ref" else None)
+            if src is None or [p_ for p_ in (src.get("p") or []) if p_ != "*"]:
+                return l_
+            l_ = src["l"]
+        return l_
+    blk_root = root(a_block["pl"]["l"]) if a_block.get("k") in ("copy", "move") else None
+    key_root = root(a_key["pl"]["l"]) if a_key.get("k") in ("copy", "move") else None
+    adv, other = [], []
     for i, blk in enumerate(b["blocks"]):
         for s in blk["s"]:
             if s["r"].get("k") == "ref" and (s["r"]["pl"].get("p") or [])[-1:] in ([".next_key"], [".signature"]) and i in loop:
-                adv.append(i)
-    ok_adv = bool(adv) and e is not None and all(mirq.dominates(b, e[1], i) for i in adv)
+                (adv if blk_root is None or root(s["r"]["pl"]["l"]) == blk_root else other).append(i)
+    stateless = not adv and bool(other) and blk_root is not None and key_root is not None and key_root != blk_root
+    ok_adv = (bool(adv) or stateless) and e is not None and all(mirq.dominates(b, e[1], i) for i in adv)
     ctx.check(ok_adv, "PASS", "current key / previous signature advance only after a successful verification", "PASS|verify_inner|advance", "current_pub / previous_signature are updated on a path that did not verify the block", f"{b['file']}:{c.ln}")
     # 3. proof
     proof_rules(fb, ctx, b, rets)
@@ -237,7 +255,7 @@ def proof_rules(fb, ctx, b, rets):
             good_edges.add((D, good))
             ctx.check(bad is not None and mirq.err_return_desc(fb, b, bad), "PROOF", "secret proof: mismatch returns Err", "PROOF|secret-err", "the mismatch edge of the key comparison does not return an error", f"{b['file']}:{c.ln}")
             lk = mirq.operand_leaves(fb, b, c.args[0]) | mirq.operand_leaves(fb, b, c.args[1])
-            ctx.check(mirq.has_leaf(lk, "arg1.authority.next_key") and any(l.startswith("arg1.blocks") and l.endswith("next_key") for l in lk), "PROOF", "secret proof compares the *last* next key of the walk", "PROOF|secret-key", f"compared key depends on {sorted(l for l in lk if not l.startswith('call:'))}", f"{b['file']}:{c.ln}")
+            ctx.check(last_key_leaves(lk), "PROOF", "secret proof compares the *last* next key of the walk", "PROOF|secret-key", f"compared key depends on {sorted(l for l in lk if not l.startswith('call:'))}", f"{b['file']}:{c.ln}")
     # Seal arm
     sealp = mirq.calls_matching(fb, b, r"crypto::generate_seal_signature_payload_v0$")
     vs = [v for v in mirq.calls_matching(fb, b, r"crypto::PublicKey::verify_signature$")]
@@ -249,7 +267,7 @@ def proof_rules(fb, ctx, b, rets):
         lk = mirq.operand_leaves(fb, b, v.args[0])
         ls = mirq.operand_leaves(fb, b, v.args[2])
         lblk = mirq.operand_leaves(fb, b, sealp[0].args[0])
-        ok = any("generate_seal_signature_payload_v0" in l for l in lv) and mirq.has_leaf(lk, "arg1.authority.next_key") and any(l.startswith("arg1.proof") for l in ls) and last_block_leaves(lblk)
+        ok = any("generate_seal_signature_payload_v0" in l for l in lv) and (mirq.has_leaf(lk, "arg1.authority.next_key") or last_key_leaves(lk)) and any(l.startswith("arg1.proof") for l in ls) and last_block_leaves(lblk)
         ctx.check(ok, "PROOF", "seal proof: seal signature verified over the last block under the last next key", "PROOF|seal-args", f"verify_signature(key<-{sorted(l for l in lk if l.startswith('arg'))}, payload<-{sorted(l for l in lv if 'generate' in l)}, sig<-{sorted(l for l in ls if l.startswith('arg'))}) over block<-{sorted(l for l in lblk if l.startswith('arg'))}", f"{b['file']}:{v.ln}")
         e = mirq.success_edge(fb, b, v)
         if e:
@@ -499,6 +517,14 @@ def last_block_leaves(l):
     """the block under the seal comes from self.authority / self.blocks, directly or through SerializedBiscuit::last_block(self)
     (whose selector the LASTBLOCK rule checks)"""
     return (mirq.has_leaf(l, "arg1.authority") and any(x.startswith("arg1.blocks") for x in l)) or (any(x.endswith("SerializedBiscuit::last_block") for x in l) and any(x == "arg1" or x.startswith("arg1") for x in l))
+
+
+def last_key_leaves(l):
+    """the key the proof is checked against is the next key at the end of the walk: the variable advanced over self.authority /
+    self.blocks, or `self.last_block().next_key` (the accessor's selector is checked by LASTBLOCK)"""
+    walk = mirq.has_leaf(l, "arg1.authority.next_key") and any(x.startswith("arg1.blocks") and x.endswith("next_key") for x in l)
+    accessor = any(x.endswith("SerializedBiscuit::last_block") for x in l) and "arg1.next_key" in l
+    return walk or accessor
 
 
 def last_block_rules(fb, ctx):
